@@ -19,6 +19,7 @@ mod framework;
 mod refcodec;
 mod rng;
 mod seqs;
+mod via_client;
 
 use framework::{drive, replay, Tier};
 
@@ -66,12 +67,12 @@ fn main() {
             }
             let code = match id.as_str() {
                 "C02" => drive(&c02::C02, tier),
-                "C04" => drive(&c04::C04, tier),
+                "C04" => drive(&via_client::ViaClient { inner: c04::C04 }, tier),
                 "C05" => {
                     framework::silence_library_stdout();
-                    drive(&c05::C05, tier)
+                    drive(&via_client::ViaClient { inner: c05::C05 }, tier)
                 }
-                "C06" => drive(&c06::C06, tier),
+                "C06" => drive(&via_client::ViaClient { inner: c06::C06 }, tier),
                 "C07" | "C08" | "C18" | "C19" | "C20" => {
                     let id: &'static str = Box::leak(id.clone().into_boxed_str());
                     drive(&cchecks::ClientCheck { id }, tier)
@@ -82,7 +83,7 @@ fn main() {
                     framework::silence_library_stdout();
                     drive(&c11::C11, tier)
                 }
-                "C15" => drive(&c15::C15, tier),
+                "C15" => drive(&via_client::ViaClient { inner: c15::C15 }, tier),
                 _ => {
                     eprintln!("unknown or not-applicable property {id}");
                     2
@@ -102,12 +103,12 @@ fn main() {
             });
             let code = match doc["property"].as_str().unwrap_or("") {
                 "C02" => replay(&c02::C02, &doc),
-                "C04" => replay(&c04::C04, &doc),
+                "C04" => replay(&via_client::ViaClient { inner: c04::C04 }, &doc),
                 "C05" => {
                     framework::silence_library_stdout();
-                    replay(&c05::C05, &doc)
+                    replay(&via_client::ViaClient { inner: c05::C05 }, &doc)
                 }
-                "C06" => replay(&c06::C06, &doc),
+                "C06" => replay(&via_client::ViaClient { inner: c06::C06 }, &doc),
                 id @ ("C07" | "C08" | "C18" | "C19" | "C20") => {
                     let id: &'static str = Box::leak(id.to_string().into_boxed_str());
                     replay(&cchecks::ClientCheck { id }, &doc)
@@ -118,7 +119,7 @@ fn main() {
                     framework::silence_library_stdout();
                     replay(&c11::C11, &doc)
                 }
-                "C15" => replay(&c15::C15, &doc),
+                "C15" => replay(&via_client::ViaClient { inner: c15::C15 }, &doc),
                 other => {
                     eprintln!("unknown property in replay file: {other}");
                     2
